@@ -17,6 +17,7 @@ open Naga Naga.IR
 inductive Sh where
   | scalar (k : Kind) (w : Nat)
   | vector (n : Nat) (k : Kind) (w : Nat)
+  | matrix (c r : Nat) (k : Kind) (w : Nat)
   | handle (t : Nat)           -- any other type, identified by its arena handle
   | unknown
   deriving Repr, DecidableEq, Inhabited
@@ -25,6 +26,7 @@ def shOfTy (types : Array Ty) (t : Nat) : Sh :=
   match types[t]? with
   | some (.scalar k w) => .scalar k w
   | some (.vector n k w) => .vector n k w
+  | some (.matrix c r k w) => .matrix c r k w
   | some _ => .handle t
   | none => .unknown
 
@@ -35,6 +37,7 @@ def shOfRecorded (types : Array Ty) : Sexp → Sh
     match IR.parseTy inner with
     | some (.scalar k w) => .scalar k w
     | some (.vector n k w) => .vector n k w
+    | some (.matrix c r k w) => .matrix c r k w
     | _ => .unknown
   | _ => .unknown
 
@@ -62,7 +65,7 @@ def infer (m : Module) (f : Fn) (prev : Array Sh) (e : Expr) : Sh :=
   match e with
   | .lit v => litSh v
   | .zero t => shOfTy m.types t
-  | .compose t _ => (match shOfTy m.types t with | .vector n k w => .vector n k w | _ => .unknown)
+  | .compose t _ => (match shOfTy m.types t with | .vector n k w => .vector n k w | .matrix c r k w => .matrix c r k w | _ => .unknown)
   | .const c => match m.consts[c]? with | some (t, _) => shOfTy m.types t | none => .unknown
   | .arg n => match f.args[n]? with | some t => shOfTy m.types t | none => .unknown
   | .splat n h => match g h with | .scalar k w => .vector n k w | _ => .unknown
@@ -75,7 +78,13 @@ def infer (m : Module) (f : Fn) (prev : Array Sh) (e : Expr) : Sh :=
       | .shl | .shr => g l
       | _ => match g l, g r with
         | .scalar _ _, .vector n k w => .vector n k w     -- scalar ⊗ vector
-        | .handle _, _ | _, .handle _ => .unknown          -- matrix products etc.: not inferred
+        | .handle _, _ | _, .handle _ => .unknown
+        | .matrix c r k w, .matrix c' r' _ _ =>            -- matrix ± matrix; matrix * matrix: (c' columns) × (r rows)
+          if op == .mul then (if c == r' then .matrix c' r k w else .unknown) else .matrix c r k w
+        | .matrix c r k w, .vector n _ _ => if op == .mul && n == c then .vector r k w else .unknown
+        | .vector n k w, .matrix c r _ _ => if op == .mul && n == r then .vector c k w else .unknown
+        | .matrix c r k w, .scalar _ _ => .matrix c r k w
+        | .scalar _ _, .matrix c r k w => .matrix c r k w
         | a, _ => a
   | .select _ a _ => g a
   | .relational _ _ => .scalar .bool 1
@@ -90,14 +99,28 @@ def infer (m : Module) (f : Fn) (prev : Array Sh) (e : Expr) : Sh :=
       | some t => (match m.types[t]? with | some (.atomic k w) => .scalar k w | _ => shOfTy m.types t)
       | none => .unknown
     | none => .unknown
-  | .accessIdx b _ => match g b with | .vector _ k w => .scalar k w | _ => .unknown
-  | .access b _ => match g b with | .vector _ k w => .scalar k w | _ => .unknown
+  | .accessIdx b _ => match g b with | .vector _ k w => .scalar k w | .matrix _ r k w => .vector r k w | _ => .unknown
+  | .access b _ => match g b with | .vector _ k w => .scalar k w | .matrix _ r k w => .vector r k w | _ => .unknown
+  | .math fn args =>
+    -- result types of the builtin functions (WGSL §17): most keep the type of their first argument
+    let a := g (args.getD 0 0)
+    if fn == "dot" then (match a with | .vector _ k w => .scalar k w | _ => .unknown)
+    else if fn == "length" || fn == "distance" then (match a with | .vector _ k w => .scalar k w | .scalar k w => .scalar k w | _ => .unknown)
+    else if fn == "determinant" then (match a with | .matrix _ _ k w => .scalar k w | _ => .unknown)
+    else if fn == "transpose" then (match a with | .matrix c r k w => .matrix r c k w | _ => .unknown)
+    else if ["abs", "min", "max", "clamp", "sign", "countTrailingZeros", "countLeadingZeros", "countOneBits", "reverseBits",
+             "firstTrailingBit", "firstLeadingBit", "extractBits", "insertBits", "normalize", "cross", "sqrt", "inverseSqrt",
+             "floor", "ceil", "round", "trunc", "fract", "saturate", "exp", "exp2", "log", "log2", "pow", "sin", "cos", "tan",
+             "fma", "step", "inverse"].contains fn then
+      (match a with | .scalar .. | .vector .. | .matrix .. => a | _ => .unknown)
+    else .unknown
   | .arrayLength _ => .scalar .uint 4
   | .callResult fn => match m.functions[fn]? with | some c => (match c.result with | some t => shOfTy m.types t | none => .unknown) | none => .unknown
   | _ => .unknown
 
 def showSh : Sh → String
-  | .scalar k w => s!"scalar({repr k},{w})" | .vector n k w => s!"vec{n}({repr k},{w})" | .handle t => s!"type#{t}" | .unknown => "?"
+  | .scalar k w => s!"scalar({repr k},{w})" | .vector n k w => s!"vec{n}({repr k},{w})"
+  | .matrix c r k w => s!"mat{c}x{r}({repr k},{w})" | .handle t => s!"type#{t}" | .unknown => "?"
 
 def checkFnTypes (m : Module) (f : Fn) (recorded : List Sexp) : List String :=
   let n := f.exprs.size
